@@ -121,8 +121,42 @@ func main() {
 				n++
 			}
 		}
-		run.Traces(int64(n))
+		// long random histories: TLC simulates the same machine (no bound on the length of a history) and every
+		// behaviour it walks is replayed in full; the tour above covers every transition, these cover what only
+		// shows after many operations on one instance
+		num, depth := 150, 10
+		if tier == "thorough" {
+			num, depth = 2500, 18
+		}
+		sim := core.MustTLC(core.TLCOpts{Spec: m.spec, Cfg: m.spec + "_tour.cfg", Workers: 1, Simulate: fmt.Sprintf("num=%d", num), Depth: depth,
+			Seed: 1000 + run.Seed, Timeout: 10 * time.Minute})
+		ss := sim.Stat(fmt.Sprintf("random behaviours of the %s machine (%d of %d steps), replayed in full", m.what, num, depth))
+		ss.Mode = "simulation"
+		run.AddTLC(ss)
+		long := 0
+		for _, c := range sim.Cases {
+			var h []pstep
+			if err := json.Unmarshal([]byte(c), &h); err != nil {
+				core.Fatalf("bad history %q: %v", c, err)
+			}
+			if len(h) < depth-1 {
+				continue // a prefix of a longer behaviour that is printed as well
+			}
+			for v := 0; v < 2; v++ {
+				if m.what == "parser" {
+					replayParser(h, v+long)
+				} else {
+					replayTokenizer(h, v+long)
+				}
+			}
+			long++
+		}
+		if long < num/2 {
+			core.Fatalf("%s simulation produced only %d full-length histories", m.spec, long)
+		}
+		run.Traces(int64(n + long))
 		run.Extra[m.what+"_histories"] = n
+		run.Extra[m.what+"_long_random_histories"] = long
 	}
 	pairPass()
 	run.Exhaustive = true
